@@ -145,7 +145,7 @@ impl TypedProgram {
         // Sort by the meta information of the const defs so we iterate them in the order that
         // they occur in the source code
         sorted_const_defs.sort_by_key(|(_name, const_def)| const_def.meta);
-        for (const_name, const_def) in sorted_const_defs {
+        for (const_name, const_def) in sorted_const_defs.iter().copied() {
             if let Type::Unsigned(UnsignedNumType::Usize) = const_def.ty {
                 if let ConstExpr(ConstExprEnum::ExternalValue { party, identifier }, _) =
                     &const_def.value
@@ -232,7 +232,9 @@ impl TypedProgram {
             cache_gates: opts.optimize_duplicate_gates,
         };
         let mut circuit = CircuitBuilder::new(input_gates, const_sizes.clone(), builder_opts);
-        for (const_name, const_def) in self.const_defs.iter() {
+        // Bind the consts in source order (not in the iteration order of the hash map), because a
+        // const can only refer to consts (and external values) that are declared before it.
+        for (const_name, const_def) in sorted_const_defs {
             let ConstExpr(expr, _) = &const_def.value;
             match expr {
                 ConstExprEnum::True => env.let_in_current_scope(const_name.clone(), vec![1]),
